@@ -87,6 +87,12 @@ class Run:
                 except claripy.errors.ClaripyZeroDivisionError:
                     self.res.count("skipped_build_div0")
                     return
+                for i_ in st.get("ann", []):
+                    # (some constraints of the batch carry a user's annotation: the same condition, another object)
+                    if i_ < len(asts) and isinstance(asts[i_], claripy.ast.Base):
+                        from vf.gen import astwork
+
+                        asts[i_] = asts[i_].annotate(astwork.NE("c"))
                 lv.added_asts += [a for a in asts if isinstance(a, claripy.ast.Base)]
                 s.add(asts)
                 lv.cons += st["cons"]
